@@ -19,6 +19,9 @@ type SASLConfig struct {
 	Mechanisms []string          // enabled mechanisms, e.g. PLAIN, SCRAM-SHA-256, SCRAM-SHA-512
 	Users      map[string]string // user -> password (already SASLprep'ed form expected from clients)
 	Iterations int
+	// NullErrorMessages: failed SaslAuthenticate rounds are answered with the error code and a null error message (the
+	// message is optional on the wire)
+	NullErrorMessages bool
 	// StepDelay: every authenticate round is answered after this pause (exchanges of connections that authenticate at about
 	// the same time then interleave).
 	StepDelay time.Duration
@@ -207,19 +210,19 @@ func (c *Cluster) hSaslAuthenticate(b *Broker, st *connState, r *Request, act *A
 	if cfg.AuthError != 0 && cfg.AuthErrorStep == st.step+1 {
 		st.step++
 		c.authEvent(AuthEvent{ConnID: r.ConnID, Mech: st.saslMech, Verdict: "error", Step: st.step, ReqSeq: r.Seq})
-		return map[string]any{"ErrorCode": int64(cfg.AuthError), "ErrorMessage": "injected", "AuthBytes": []byte{}, "SessionLifetimeMs": int64(0)}
+		return map[string]any{"ErrorCode": int64(cfg.AuthError), "ErrorMessage": errMsg(cfg, "injected"), "AuthBytes": []byte{}, "SessionLifetimeMs": int64(0)}
 	}
 	if act.ErrorCode != 0 {
 		st.step++
 		c.authEvent(AuthEvent{ConnID: r.ConnID, Mech: st.saslMech, Verdict: "error", Step: st.step, ReqSeq: r.Seq})
-		return map[string]any{"ErrorCode": int64(act.ErrorCode), "ErrorMessage": "injected", "AuthBytes": []byte{}, "SessionLifetimeMs": int64(0)}
+		return map[string]any{"ErrorCode": int64(act.ErrorCode), "ErrorMessage": errMsg(cfg, "injected"), "AuthBytes": []byte{}, "SessionLifetimeMs": int64(0)}
 	}
 	resp, code, msg, _ := c.authStep(r.Conn, st, cfg, token, r.Seq)
 	if resp == nil || code != 0 {
 		resp = []byte{} // brokers answer a failed exchange with the error code and message only
 	}
 	var em any
-	if msg != "" {
+	if msg != "" && !cfg.NullErrorMessages {
 		em = msg
 	}
 	return map[string]any{"ErrorCode": code, "ErrorMessage": em, "AuthBytes": resp, "SessionLifetimeMs": int64(0)}
@@ -445,4 +448,11 @@ func (s *scramServer) step(in string) (out string, done bool, err error) {
 		return "v=" + base64.StdEncoding.EncodeToString(ssig), true, nil
 	}
 	return bad("scram: exchange already finished")
+}
+
+func errMsg(cfg *SASLConfig, s string) any {
+	if cfg.NullErrorMessages {
+		return nil
+	}
+	return s
 }
